@@ -731,6 +731,11 @@ def c08_timeout(api, run):
 
 # ------------------------------------------------------------------------------- C09
 def c09_forever(api, run):
+    if run.outcome[0] in ("deadlock", "horizon"):
+        top = run.top
+        unfinished = [sand(snot(truthy(m.p["forever"])), run.finished(m) is None) for m in top.children]
+        prove(api, sor(*unfinished) if unfinished else False,
+              "C09: every non-forever job of %s has finished and its run never ends" % top, run)
     for s in run.scheds():
         b = run.started(s)
         over = run.first(s.name, "run_end")
@@ -875,7 +880,10 @@ def c13_shutdown(api, run):
                 elif ev.kind in (("run_end", "run_exc", "run_cancel") if m.is_sched
                                  else ("end", "raise", "cancel_done")):
                     running.discard(m.name)
-                elif ev.kind in ("sd_begin", "ssd_begin") and running and m.name not in running:
+                elif (ev.kind == "sd_begin" and running) or \
+                        (ev.kind == "ssd_begin" and running and m.name not in running):
+                    # (a nested scheduler broadcasts to its own jobs from inside its own run: that is not a
+                    # shutdown *received* while it runs; an atomic job receiving it while it runs itself is)
                     fail(api, "C13: %s received co_shutdown() while %s of the same scheduler %s is still running"
                          % (m, sorted(running), s), run)
         # bounded phase
